@@ -147,8 +147,15 @@ func (tp *twoPass) run(t *testing.T) {
 
 // observed merges the flows of all runs: (source line, sink line) -> argument indices, unapproved only when
 // respectApproval is set.
+var deepExcluded int
+
+// replaying is set while a stored case is re-judged: exclusions that keep the search going past known findings do not
+// apply to replays (a known finding must still reproduce).
+var replaying bool
+
 func observedFlows(res *native.Result, respectApproval bool) map[[2]int]bool {
 	obs := map[[2]int]bool{}
+	deepOff := excluded()["deep-reachability"] && !replaying
 	for _, r := range res.Runs {
 		appr := map[int]bool{}
 		if respectApproval {
@@ -156,11 +163,21 @@ func observedFlows(res *native.Result, respectApproval bool) map[[2]int]bool {
 				appr[a] = true
 			}
 		}
+		hops := map[[2]int]int{}
+		for _, h := range r.Hops {
+			hops[[2]int{h[0], h[1]}] = h[2]
+		}
 		for _, f := range r.Flows {
 			if appr[f[0]] {
 				continue
 			}
-			obs[[2]int{f[0], f[1]}] = true
+			k := [2]int{f[0], f[1]}
+			if deepOff && hops[k] >= 2 {
+				// known finding (reachability aliasing): witness nested two or more references below the sink argument
+				deepExcluded++
+				continue
+			}
+			obs[k] = true
 		}
 	}
 	return obs
@@ -251,6 +268,8 @@ func writeFlowViolation(id, kind string, c *flowCase, variant taintVariant, what
 
 // replayFlow re-runs the stored program natively, re-analyses it and applies the same comparison.
 func replayFlowDir(dir string, respectApproval bool) string {
+	replaying = true
+	defer func() { replaying = false }()
 	main, err := os.ReadFile(filepath.Join(dir, "main.go"))
 	if err != nil {
 		return "cannot read main.go: " + err.Error()
